@@ -357,52 +357,46 @@ def roles(fx):
 
 
 def role_obs(fx, which=("mutating", "fidelity"), cfgname="A"):
+    """Sink and construction obligations.  A source site (a call or an aggregate) usually occurs in several
+    analysis units: inlined into each role that runs it, and once more in its own function/closure.  It is judged
+    in the units where its function is *inlined into its caller* (there its operands have their provenance) if
+    such units exist, else in its own unit; every unit that judges it must agree."""
     import p_gate
     R_ = roles(fx)
     reach = p_gate.driver_reach(fx)
-    obs = []
-    counters = {}
-    nsinks = 0
+    per_site = {}      # (kind, file, line, col, callee/adt, arg) -> [(inlined?, ok, trivial, what, unit path, witness)]
     for f in R_.fns:
-        for bi, t in f.calls():
-            if q.span_excluded(t["span"]):
-                continue
-            o, p = q.names(t)
-            spec = SINKS.get(o) or SINKS.get(p)
-            if o == IOCTL:
-                spec = IOCTL_FICLONE if _is_ficlone(f, t) else None
-            if not spec:
-                continue
-            for ai, (need, kind) in sorted(spec.items()):
-                if kind not in which or ai >= len(t["args"]):
-                    continue
-                got = R_.operand_role(f, t["args"][ai])
-                kk = (f.path, o, ai)
-                n = counters.get(kk, 0)
-                counters[kk] = n + 1
-                key = mkkey("R-ROLE", f.path, o, n, "arg%d:%s" % (ai, need))
-                in_graph = f.path in reach or f.root in reach
-                if got == NONE:
-                    # constants (e.g. a literal length) and out-of-graph helpers have no role
-                    ok = not in_graph or "c" in t["args"][ai]
-                    trivial = not in_graph
-                    what = "role of argument %d of %s is undetermined%s" % (
-                        ai, o.split("::")[-1], " (function not reachable from the drivers)" if not in_graph else "")
-                else:
-                    ok = got == need
-                    trivial = False
-                    what = "argument %d of %s has role %s, sink requires %s" % (ai, o.split("::")[-1], got, need)
-                nsinks += 1
-                ob = Ob("R-ROLE", key, ok, q.loc_of(t), f.path, what,
-                        None if ok else dict(callee=o, arg=ai, role=got, required=need, kind=kind), trivial=trivial,
-                        cfg=cfgname)
-                obs.append(ob)
-    # construction sites of role-carrying aggregates
-    for f in R_.fns:
-        n = 0
-        for b in f.blocks:
+        root = getattr(f, "inlined_from", None) or f.path
+        rootfn = fx.fns.get(root)
+        in_graph = root in reach or (rootfn is not None and rootfn.root in reach) or getattr(f, "inlined_from", None) is not None
+        for bi, b in enumerate(f.blocks):
             if b.get("cleanup"):
                 continue
+            inl = b.get("origin", root) != root
+            t = b["term"]
+            if t["k"] == "call" and not q.span_excluded(t["span"]):
+                o, p = q.names(t)
+                spec = SINKS.get(o) or SINKS.get(p)
+                if o == IOCTL:
+                    spec = IOCTL_FICLONE if _is_ficlone(f, t) else None
+                if spec:
+                    for ai, (need, kind) in sorted(spec.items()):
+                        if kind not in which or ai >= len(t["args"]):
+                            continue
+                        got = R_.operand_role(f, t["args"][ai])
+                        if got == NONE:
+                            ok = not in_graph or "c" in t["args"][ai]
+                            trivial = not in_graph
+                            what = "role of argument %d of %s is undetermined%s" % (
+                                ai, o.split("::")[-1], " (function not reachable from the drivers)" if not in_graph else "")
+                        else:
+                            ok = got == need
+                            trivial = False
+                            what = "argument %d of %s has role %s, sink requires %s" % (ai, o.split("::")[-1], got, need)
+                        sid = ("sink", t["span"]["file"], t["span"]["line"], t["span"].get("col"), o, ai, need,
+                               b.get("origin", root))
+                        per_site.setdefault(sid, []).append((inl, ok, trivial, what, f.path,
+                                                             None if ok else dict(callee=o, arg=ai, role=got, required=need, kind=kind)))
             for s in b["stmts"]:
                 rv = s["rv"]
                 if rv["k"] != "agg" or rv.get("ak") != "adt":
@@ -414,22 +408,36 @@ def role_obs(fx, which=("mutating", "fidelity"), cfgname="A"):
                     want = [FIELD_ROLES.get((COPYHANDLE, nm)) for nm in rv["fnames"]]
                 if want is None:
                     continue
-                for i, o in enumerate(rv["fields"]):
+                for i, o_ in enumerate(rv["fields"]):
                     if i >= len(want) or want[i] is None:
                         continue
                     kind = W if want[i] == DST else R
                     if kind not in which:
                         continue
-                    got = R_.operand_role(f, o)
+                    got = R_.operand_role(f, o_)
                     ok = got == want[i]
-                    key = mkkey("R-ROLE", f.path, "%s::%s" % (rv["adt"], rv["variant"]), n, "field%d:%s" % (i, want[i]))
-                    obs.append(Ob("R-ROLE", key, ok, "%s:%d" % (s["span"]["file"], s["span"]["line"]), f.path,
-                                  "%s::%s field %d built from a %s value, must be %s" % (
-                                      rv["adt"].split("::")[-1], rv["variant"], i, got, want[i]),
-                                  None if ok else dict(role=got, required=want[i]), cfg=cfgname))
-                n += 1
-    if nsinks < 20:
-        obs.append(anchor_ob("R-ROLE", "role sinks found %d" % nsinks, cfg=cfgname))
+                    sid = ("agg", s["span"]["file"], s["span"]["line"], s["span"].get("col"),
+                           "%s::%s" % (rv["adt"], rv["variant"]), i, want[i], b.get("origin", root))
+                    per_site.setdefault(sid, []).append((inl, ok, False, "%s::%s field %d built from a %s value, must be %s" % (
+                        rv["adt"].split("::")[-1], rv["variant"], i, got, want[i]), f.path,
+                        None if ok else dict(role=got, required=want[i])))
+    obs = []
+    counters = {}
+    for sid, evs in sorted(per_site.items(), key=lambda kv: tuple(str(x) for x in kv[0])):
+        use = [e for e in evs if e[0]] or evs
+        bad = [e for e in use if not e[1]]
+        inl, ok, trivial, what, unit, wit = (bad or use)[0]
+        ok = not bad
+        kind_, file_, line_, col_, name_, idx_, need_, origin_ = sid
+        kk = (origin_, name_, idx_)
+        n = counters.get(kk, 0)
+        counters[kk] = n + 1
+        if kind_ == "sink":
+            key = mkkey("R-ROLE", origin_, name_, n, "arg%d:%s" % (idx_, need_))
+        else:
+            key = mkkey("R-ROLE", origin_, name_, n, "field%d:%s" % (idx_, need_))
+        obs.append(Ob("R-ROLE", key, ok, "%s:%d" % (file_, line_), origin_, what, wit,
+                      trivial=all(e[2] for e in use), cfg=cfgname))
     return obs
 
 
